@@ -552,6 +552,24 @@ func (e *Env) call(n *SNode) SV {
 			return svTerm(B.False())
 		}
 		return svTerm(B.Eq(a.V.L[0], x.typeID(ct)))
+	case "global":
+		// global("pkg.name"): current value of a package-level variable
+		gn := n.Args[0].Name
+		idx := strings.LastIndex(gn, ".")
+		if idx < 0 {
+			e.fail("global needs \"pkg.name\"")
+		}
+		for path, sp := range x.W.SPkgs {
+			if shortPkgPath(path) != gn[:idx] {
+				continue
+			}
+			if g, ok := sp.Members[gn[idx+1:]].(*ssa.Global); ok {
+				et := g.Type().(*types.Pointer).Elem()
+				l := &Loc{Kind: LGlobal, Name: gn, T: et}
+				return svValue(x.load(e.st, l, et))
+			}
+		}
+		e.fail("unknown global %q", gn)
 	case "asptr":
 		// asptr(iface, "*pkg.T"): the interface's data word as a pointer of that type
 		a := e.eval(n.Args[0])
